@@ -112,10 +112,16 @@ def _search(prop, spec, corr, tier, seed, mon, workdir):
             continue
         if time.time() > deadline:
             return None
+        tcfg = run.get(tier) or run["quick"]
+        if not (tcfg.get("explore") or tcfg.get("random") or tcfg.get("scale")):
+            continue        # scripted-only runs (300 waiters): too long for the prefix-wise monitor
         hist = os.path.join(workdir, "full.hist")
         with open(hist, "w") as hf:
             try:
-                subprocess.run([MODELRUN, run.get("explore_cmd", "explore") + "-full", run["prim"], run["cfg"], str(budget)], stdout=hf, stderr=subprocess.DEVNULL, timeout=SEARCH_STEP_S)
+                # (runs without exploration - the scripted 300-waiter histories - only contribute
+                # their corpus and walks: breadth-first over 900 enabled operations is pointless)
+                if (run.get(tier) or run["quick"]).get("explore", 0):
+                    subprocess.run([MODELRUN, run.get("explore_cmd", "explore") + "-full", run["prim"], run["cfg"], str(budget)], stdout=hf, stderr=subprocess.DEVNULL, timeout=SEARCH_STEP_S)
             except subprocess.TimeoutExpired:
                 pass   # the histories written so far are still used
             rc = run.get("random_cfg", run["cfg"])
@@ -212,6 +218,11 @@ def followup(prop, spec, corr, tier, seed, all_keys=False):
 def _followup(prop, spec, tier, mon, div, workdir, drain=False):
     depth = "3" if tier == "thorough" and not drain else "2"
     for (rname, fl), hists in div.items():
+        # histories of ordinary size only: evaluating a monitor prefix by prefix on the scripted
+        # 300-waiter histories (~1500 steps) takes minutes per candidate
+        hists = [h for h in hists if h.count(";") <= 300]
+        if not hists:
+            continue
         base = os.path.join(workdir, "base.hist")
         with open(base, "w") as f:
             f.write("\n".join(hists) + "\n")
@@ -220,8 +231,14 @@ def _followup(prop, spec, tier, mon, div, workdir, drain=False):
             # every future consumes its wake-up (polls in both orders), from the diverging step
             ext = subprocess.run([MODELRUN, "extend-drain", base], capture_output=True, text=True).stdout
             lines += [l for l in ext.splitlines() if l.strip()]
-        ext = subprocess.run([MODELRUN, "extend", depth, base], capture_output=True, text=True).stdout
-        lines += [l for l in ext.splitlines() if l.strip()][:400000]
+        # all continuations of depth 2 (3): only for histories of ordinary size (the scripted
+        # 300-waiter histories have ~900 enabled operations and ~1500 steps each)
+        small = [h for h in hists if h.count(";") <= 300]
+        if small:
+            with open(base, "w") as f:
+                f.write("\n".join(small) + "\n")
+            ext = subprocess.run([MODELRUN, "extend", depth, base], capture_output=True, text=True).stdout
+            lines += [l for l in ext.splitlines() if l.strip()][:400000]
         if hists and hists[0].startswith("mpmc;"):
             from check import retag_line
             lines = [retag_line(l) for l in lines]
